@@ -1,5 +1,6 @@
 import PEval.Properties.C04Core
 import PEval.Properties.Pipeline
+import PEval.Properties.C04Dict
 /-!
 # C04 — AP, APH and mAP equal the interpolated precision-recall area, within [0,1] (root)
 
@@ -9,6 +10,10 @@ import PEval.Properties.Pipeline
   model — `pipeline_ap_in_unit`, `pipeline_frameMap_in_unit`, `pipeline_aph_le_ap`: on every frame the
   pipeline produces, every defined AP / APH / mAP / mAPH lies in [0,1] and APH ≤ AP, the one-to-one
   hypothesis being discharged by C01's theorems and inherited by every `divide_objects` bucket.
+
+* `PEval/Properties/C04Dict.lean` (namespace `PEval.C04`): `Map` reads its per-label dicts by key (key order
+  and extra keys are irrelevant), the label list of the critical-object filter may be any listing of the
+  evaluation config's labels, and a threshold `float("inf")` behaves like a number above every score.
 
 The core is a separate module only because the composition imports it (no import cycle); the audit
 of `./check C04` imports this root and therefore sees both.
